@@ -47,6 +47,10 @@ func kindOf(v value) types.BasicKind {
 	switch v := v.(type) {
 	case sym:
 		return v.k
+	case ftab:
+		return v.k
+	case fmono:
+		return types.Float64
 	case bool:
 		return types.Bool
 	case int:
@@ -156,6 +160,12 @@ func fromBits(k types.BasicKind, b uint64) value {
 func (i *interpreter) termOf(v value) *smt.Term {
 	if s, ok := v.(sym); ok {
 		return s.t
+	}
+	if f, ok := v.(ftab); ok {
+		return i.ftabTerm(f)
+	}
+	if f, ok := v.(fmono); ok {
+		return i.fmonoTerm(f)
 	}
 	k := kindOf(v)
 	switch {
@@ -335,6 +345,12 @@ func (i *interpreter) symBinop(fr *frame, op token.Token, x, y value) value {
 	if op == token.SHL || op == token.SHR {
 		return i.symShift(fr, op, x, y)
 	}
+	if r, ok := i.ftabBinop(op, x, y); ok {
+		return r
+	}
+	if r, ok := i.fmonoBinop(op, x, y); ok {
+		return r
+	}
 	k := kindOf(x)
 	if _, ok := x.(sym); !ok {
 		k = kindOf(y)
@@ -497,6 +513,12 @@ func (i *interpreter) symConvNum(dst types.BasicKind, x sym) value {
 	case sf:
 		return i.mkVal(dst, tb.FpToInt(x.t, kindSigned(dst), kindWidth(dst)))
 	case df:
+		if v, ok := i.tabulate(dst, x); ok {
+			return v
+		}
+		if dst == types.Float64 && i.p != nil {
+			return fmono{x: x.t, xk: x.k}
+		}
 		return i.mkVal(dst, tb.IntToFp(x.t, kindSigned(x.k), kindWidth(dst)))
 	}
 	sw, dw := kindWidth(x.k), kindWidth(dst)
